@@ -19,7 +19,10 @@ Nodes == 1..N
 Lists == 1..NL
 
 Init0 == [hn |-> [l \in Lists |-> -l], hp |-> [l \in Lists |-> -l], size |-> [l \in Lists |-> 0],
-          nx |-> [n \in Nodes |-> 0], pv |-> [n \in Nodes |-> 0]]
+          nx |-> [n \in Nodes |-> 0], pv |-> [n \in Nodes |-> 0],
+          \* which link member of the elements a list object is configured with (its node offset): list objects
+          \* need not agree, and whatever moves contents between two objects has to move the configuration too
+          offk |-> [l \in Lists |-> IF l % 2 = 1 THEN 1 ELSE 2]]
 
 Nx(s, x) == IF x > 0 THEN s.nx[x] ELSE s.hn[-x]
 Pv(s, x) == IF x > 0 THEN s.pv[x] ELSE s.hp[-x]
@@ -90,7 +93,8 @@ SwapFix(s, l) == IF s.size[l] = 0 THEN [s EXCEPT !.hn[l] = -l, !.hp[l] = -l]
                  ELSE SetNx(SetPv(s, s.hn[l], -l), s.hp[l], -l)
 Swap(s, a, b) ==
     LET s1 == [s EXCEPT !.hn[a] = s.hn[b], !.hn[b] = s.hn[a], !.hp[a] = s.hp[b], !.hp[b] = s.hp[a],
-                        !.size[a] = s.size[b], !.size[b] = s.size[a]]
+                        !.size[a] = s.size[b], !.size[b] = s.size[a],
+                        !.offk[a] = s.offk[b], !.offk[b] = s.offk[a]]
     IN SwapFix(SwapFix(s1, a), b)
 
 (* ---- abstraction: walks over the links, with fuel --------------------- *)
@@ -239,7 +243,7 @@ OpSet(s, probes) ==
     \cup UNION {{[op |-> "insert", l |-> l, pe |-> pe, e |-> e] : pe \in SeqSet(q[l]), e \in Free(s)} : l \in Lists}
     \cup UNION {{[op |-> "erase", l |-> l, e |-> e] : e \in SeqSet(q[l])} : l \in Lists}
     \cup {[op |-> "reverse", l |-> l] : l \in Lists} \cup {[op |-> "sort", l |-> l] : l \in Lists}
-    \cup {[op |-> "concat", d |-> p[1], src |-> p[2]] : p \in {x \in Lists \X Lists : x[1] # x[2]}}
+    \cup {[op |-> "concat", d |-> p[1], src |-> p[2]] : p \in {x \in Lists \X Lists : x[1] # x[2] /\ s.offk[x[1]] = s.offk[x[2]]}}   \* like-configured lists only
     \cup {[op |-> "swap", a |-> p[1], b |-> p[2]] : p \in {x \in Lists \X Lists : x[1] <= x[2]}}   \* a = b: swapped with itself
     \cup {[op |-> "clear", l |-> l] : l \in Lists}
     \cup UNION {{[op |-> "foreach", l |-> l, rev |-> rv, stop |-> st, er |-> TRUE] :
